@@ -74,7 +74,7 @@ Print Assumptions C03_spec_roundtrip_dec.
    RLE booleans, DELTA_BINARY_PACKED, any trailing bytes - returns exactly the cells the page denotes.
    (Full statement: the same for fp_read over whole files, see the header of this file.) *)
 Theorem C03_fp_read_page_v1_spec_partial : forall cd dict p cs,
-  page_wf cd p -> store_ok_for_reader cd (lp_store p) -> page_cells cd dict p = Some cs ->
+  page_wf cd p -> page_cells cd dict p = Some cs ->
   rd_col_page false cd dict (v1_header p) (v1_raw cd p) = ROk cs.
 Proof. exact rd_col_page_v1_spec. Qed.
 Print Assumptions C03_fp_read_page_v1_spec_partial.
@@ -89,7 +89,7 @@ Theorem C03_fp_read_page_v2_spec_partial :
   forall (compress : Z -> bytes -> bytes) (decompress : Z -> N -> bytes -> option bytes),
   (forall codec b, decompress codec (lenN b) (compress codec b) = Some b) ->
   forall inplace cd dict codec p cs,
-  lp_v2 p = true -> page_wf cd p -> store_ok_for_reader cd (lp_store p) -> page_cells cd dict p = Some cs ->
+  lp_v2 p = true -> page_wf cd p -> page_cells cd dict p = Some cs ->
   (inplace = true -> match lp_store p with SPlain _ => num_width (cd_type cd) <> None | _ => True end) ->
   (match lp_store p with SDelta _ _ _ => v2_nn cd p = 0 | _ => True end) ->
   rd_page_v2 decompress inplace cd dict codec (v2_header cd p)
